@@ -9,20 +9,24 @@
  *
  * The parameter set is fixed per process: VS_FUZZ_EP=<id> (prime curve, default: first that configures),
  * VS_FUZZ_EB=<id> (binary curve). Classes that are known findings of the Hypothesis check (known_findings.json) are
- * skipped by the oracle, each behind a KNOWN_* switch so that a repair can be verified by turning the switch off. */
+ * skipped by the oracle, each behind a KNOWN_* switch so that a repair can be verified by turning the switch off
+ * (all four are repaired in /repo now, so the switches are off).
+ *
+ * VS_FUZZ_EMIT=<dir> writes a seed corpus of valid encodings (every selector, every accepted length) and exits:
+ * engine/fuzz/corpus/fuzz_decode was produced that way. */
 #include "vs.h"
 
 #ifndef KNOWN_FP2_PACKED_UNCHECKED
-#define KNOWN_FP2_PACKED_UNCHECKED 1      /* fp2_read_bin(L+1): result of fp2_upk ignored, any sign octet */
+#define KNOWN_FP2_PACKED_UNCHECKED 0      /* fp2_read_bin(L+1): result of fp2_upk ignored, any sign octet */
 #endif
 #ifndef KNOWN_FP12_PACKED_UNCHECKED
-#define KNOWN_FP12_PACKED_UNCHECKED 1     /* fp12_read_bin(8L): no cyclotomic test */
+#define KNOWN_FP12_PACKED_UNCHECKED 0     /* fp12_read_bin(8L): no cyclotomic test */
 #endif
 #ifndef KNOWN_FB_UNREDUCED
-#define KNOWN_FB_UNREDUCED 1              /* fb_read_bin keeps bits >= m */
+#define KNOWN_FB_UNREDUCED 0              /* fb_read_bin keeps bits >= m */
 #endif
 #ifndef KNOWN_ED_X_ZERO
-#define KNOWN_ED_X_ZERO 1                 /* second encodings of the Edwards points with x = 0 */
+#define KNOWN_ED_X_ZERO 0                 /* second encodings of the Edwards points with x = 0 */
 #endif
 
 static int inited, have_ep, have_ep2, have_eb, have_ed;
@@ -51,9 +55,122 @@ static int try_set(void (*fn)(int), int id) {
 	return ok;
 }
 
+static void emit(const char *dir, const char *name, int sel, const uint8_t *b, size_t n) {
+	char path[512];
+	snprintf(path, sizeof path, "%s/%s", dir, name);
+	FILE *f = fopen(path, "wb");
+	if (!f) return;
+	fputc(sel, f);
+	fwrite(b, 1, n, f);
+	fclose(f);
+}
+
+static void emit_seeds(const char *dir) {
+	static uint8_t b[16 * 12 * RLC_FP_BYTES + 64];
+	char nm[64];
+	RLC_TRY {
+#if defined(WITH_BN)
+		emit(dir, "bn_bin_small", 0, (const uint8_t *)"\x01\x02\x03", 3);
+		emit(dir, "bn_bin_lead0", 0, (const uint8_t *)"\x00\x00\xff\x10", 4);
+		emit(dir, "bn_str_10", 1, (const uint8_t *)"\x08-1234567890\0", 14);
+		emit(dir, "bn_str_16", 1, (const uint8_t *)"\x0e" "DEADBEEF00ff\0", 14);
+		emit(dir, "bn_str_64", 1, (const uint8_t *)"\x3e" "zZ+/09aA\0", 10);
+#endif
+#if defined(WITH_FP)
+		{
+			fp_t a; fp_null(a); fp_new(a);
+			for (int i = 0; i < 3; i++) {
+				if (i == 0) fp_set_dig(a, 5); else if (i == 1) { fp_set_dig(a, 1); fp_neg(a, a); } else fp_rand(a);
+				fp_write_bin(b, RLC_FP_BYTES, a);
+				snprintf(nm, sizeof nm, "fp_%d", i); emit(dir, nm, 2, b, RLC_FP_BYTES);
+			}
+			fp_free(a);
+		}
+#endif
+#if defined(WITH_EP)
+		if (have_ep) {
+			ep_t p; ep_null(p); ep_new(p);
+			ep_curve_get_gen(p);
+			for (int i = 0; i < 3; i++) {
+				ep_write_bin(b, 2 * RLC_FP_BYTES + 1, p, 0);
+				snprintf(nm, sizeof nm, "ep_u_%d", i); emit(dir, nm, 5, b, 2 * RLC_FP_BYTES + 1);
+				ep_write_bin(b, RLC_FP_BYTES + 1, p, 1);
+				snprintf(nm, sizeof nm, "ep_c_%d", i); emit(dir, nm, 6, b, RLC_FP_BYTES + 1);
+				ep_dbl(p, p); ep_norm(p, p);
+			}
+			b[0] = 0; emit(dir, "ep_inf", 5, b, 1);
+			ep_free(p);
+		}
+#endif
+#if defined(WITH_FPX) && defined(WITH_EP)
+		if (have_ep) {
+			fp2_t a, c; fp2_null(a); fp2_null(c); fp2_new(a); fp2_new(c);
+			fp2_rand(a);
+			fp2_write_bin(b, 2 * RLC_FP_BYTES, a, 0); emit(dir, "fp2_full", 3, b, 2 * RLC_FP_BYTES);
+			fp2_conv_cyc(c, a);
+			fp2_write_bin(b, RLC_FP_BYTES + 1, c, 1); emit(dir, "fp2_packed", 3, b, RLC_FP_BYTES + 1);
+			fp2_free(a); fp2_free(c);
+		}
+#endif
+#if defined(WITH_EPX) && defined(WITH_EP) && defined(WITH_PC)
+		if (have_ep2) {
+			ep2_t q; fp12_t g; ep_t p; ep2_null(q); fp12_null(g); ep_null(p);
+			ep2_new(q); fp12_new(g); ep_new(p);
+			ep2_curve_get_gen(q); ep_curve_get_gen(p);
+			for (int i = 0; i < 2; i++) {
+				ep2_write_bin(b, 4 * RLC_FP_BYTES + 1, q, 0);
+				snprintf(nm, sizeof nm, "ep2_u_%d", i); emit(dir, nm, 7, b, 4 * RLC_FP_BYTES + 1);
+				ep2_write_bin(b, 2 * RLC_FP_BYTES + 1, q, 1);
+				snprintf(nm, sizeof nm, "ep2_c_%d", i); emit(dir, nm, 7, b, 2 * RLC_FP_BYTES + 1);
+				ep2_dbl(q, q); ep2_norm(q, q);
+			}
+			b[0] = 0; emit(dir, "ep2_inf", 7, b, 1);
+			pp_map_k12(g, p, q);
+			fp12_write_bin(b, 12 * RLC_FP_BYTES, g, 0); emit(dir, "fp12_full", 4, b, 12 * RLC_FP_BYTES);
+			fp12_write_bin(b, 8 * RLC_FP_BYTES, g, 1); emit(dir, "fp12_packed", 4, b, 8 * RLC_FP_BYTES);
+			fp12_rand(g);
+			fp12_write_bin(b, 12 * RLC_FP_BYTES, g, 0); emit(dir, "fp12_random", 4, b, 12 * RLC_FP_BYTES);
+			ep2_free(q); fp12_free(g); ep_free(p);
+		}
+#endif
+#if defined(WITH_EB)
+		if (have_eb) {
+			eb_t p; eb_null(p); eb_new(p);
+			eb_curve_get_gen(p);
+			for (int i = 0; i < 2; i++) {
+				eb_write_bin(b, 2 * RLC_FB_BYTES + 1, p, 0);
+				snprintf(nm, sizeof nm, "eb_u_%d", i); emit(dir, nm, 8, b, 2 * RLC_FB_BYTES + 1);
+				eb_write_bin(b, RLC_FB_BYTES + 1, p, 1);
+				snprintf(nm, sizeof nm, "eb_c_%d", i); emit(dir, nm, 8, b, RLC_FB_BYTES + 1);
+				fb_write_bin(b, RLC_FB_BYTES, p->x);
+				snprintf(nm, sizeof nm, "fb_%d", i); emit(dir, nm, 9, b, RLC_FB_BYTES);
+				eb_dbl(p, p); eb_norm(p, p);
+			}
+			b[0] = 0; emit(dir, "eb_inf", 8, b, 1);
+			eb_free(p);
+		}
+#endif
+#if defined(WITH_ED)
+		if (have_ed) {
+			ed_t p; ed_null(p); ed_new(p);
+			ed_curve_get_gen(p);
+			for (int i = 0; i < 2; i++) {
+				ed_write_bin(b, 2 * RLC_FP_BYTES + 1, p, 0);
+				snprintf(nm, sizeof nm, "ed_u_%d", i); emit(dir, nm, 10, b, 2 * RLC_FP_BYTES + 1);
+				ed_write_bin(b, RLC_FP_BYTES + 1, p, 1);
+				snprintf(nm, sizeof nm, "ed_c_%d", i); emit(dir, nm, 10, b, RLC_FP_BYTES + 1);
+				ed_dbl(p, p); ed_norm(p, p);
+			}
+			ed_free(p);
+		}
+#endif
+	} RLC_CATCH_ANY { fprintf(stderr, "seed emission failed\n"); }
+	clear_err();
+}
+
 int LLVMFuzzerInitialize(int *argc, char ***argv) {
 	(void)argc; (void)argv;
-	vs_init();
+	if (core_init() != RLC_OK) abort();
 	inited = 1;
 #if defined(WITH_EP)
 	{
@@ -80,8 +197,13 @@ int LLVMFuzzerInitialize(int *argc, char ***argv) {
 #if defined(WITH_ED)
 	have_ed = try_set(ed_param_set, 1);
 #endif
+	if (getenv("VS_FUZZ_EMIT")) {
+		emit_seeds(getenv("VS_FUZZ_EMIT"));
+		exit(0);
+	}
 	return 0;
 }
+
 
 #if defined(WITH_FP)
 static int fp_canon(const fp_t a) { return dv_cmp(a, fp_prime_get(), RLC_FP_DIGS) == RLC_LT; }
